@@ -679,3 +679,74 @@ func TestC14(t *testing.T) {
 	fixUps.Rapid(ev.Share(ev.Pick(800, 16000)), genFix)
 	HolidayUtil.VerifReset()
 }
+
+// native fuzz target (thorough tier, additive): bytes are decoded into a sequence of Fix calls
+// (5 bytes per segment: kind, year, month, day, flags; kind bit 7 starts a new call) and checked by
+// the same stateful oracle as fixups_reflected_exactly.
+func FuzzFix(f *testing.F) {
+	f.Add([]byte{0, 10, 5, 5, 1})
+	f.Add([]byte{0, 30, 1, 1, 0, 0x81, 30, 1, 1, 3, 0x82, 30, 1, 1, 0})
+	f.Add([]byte{2, 0, 0, 0, 0, 0x80, 200, 12, 28, 2})
+	f.Fuzz(func(t *testing.T, data []byte) {
+		if len(data) > 200 {
+			data = data[:200]
+		}
+		HolidayUtil.VerifReset()
+		base, _ := parseTable(HolidayUtil.VerifData())
+		model := append([]rec(nil), base...)
+		nNames := len(HolidayUtil.VerifNames())
+		var acts []fixAction
+		cur := fixAction{Kind: "add"}
+		used := map[string]bool{}
+		flush := func() {
+			if len(cur.Segs) > 0 {
+				acts = append(acts, cur)
+				model, _ = applyModel(model, nil, cur)
+			}
+			cur = fixAction{Kind: "add"}
+			used = map[string]bool{}
+		}
+		for i := 0; i+5 <= len(data); i += 5 {
+			k, yb, mb, db, fl := data[i], data[i+1], data[i+2], data[i+3], data[i+4]
+			if k&0x80 != 0 {
+				flush()
+			}
+			var day string
+			exists := func(d string) bool {
+				for _, r := range model {
+					if r.Day == d {
+						return true
+					}
+				}
+				return false
+			}
+			if k&3 == 1 || k&3 == 2 { // replace / remove an existing record
+				if len(model) == 0 {
+					continue
+				}
+				day = model[(int(yb)<<8|int(mb))%len(model)].Day
+			} else {
+				day = fmt.Sprintf("%04d%02d%02d", 1990+int(yb)%50, 1+int(mb)%12, 1+int(db)%28)
+			}
+			if used[day] {
+				continue
+			}
+			used[day] = true
+			if k&3 == 2 || (k&3 == 3 && !exists(day)) {
+				cur.Segs = append(cur.Segs, day+"~0"+day)
+				cur.Kind = "remove"
+			} else {
+				tgt := day
+				if fl&4 != 0 {
+					tgt = fmt.Sprintf("%s%02d01", day[:4], []int{1, 5, 10}[int(fl>>3)%3])
+				}
+				cur.Segs = append(cur.Segs, fmt.Sprintf("%s%d%d%s", day, int(fl>>5)%nNames, int(fl)&1, tgt))
+			}
+		}
+		flush()
+		if len(acts) == 0 {
+			return
+		}
+		ev.FuzzCheck(t, fixUps, fixCase{acts})
+	})
+}
